@@ -1,6 +1,6 @@
 (* Replays an observed operation history on the model and reports the first observation
    that differs. Used by the generated case files (C01, C16, ...). *)
-From LB Require Import Base.Prelude Log.Model.
+From LB Require Import Base.Prelude Log.Model Log.Retention.
 Open Scope Z_scope.
 
 Inductive lop :=
@@ -11,7 +11,9 @@ Inductive lop :=
 | LHw (h : Z)
 | LRo (b : bool)
 | LRead (unc : bool) (o : Z) (recs : list rec) (e : N)
-| LState (nw od hw : Z).
+| LState (nw od hw : Z)
+| LClean (ttl : Z)
+| LLayout (lay : list (Z * Z * Z)).   (* (base, message count, position) per segment *)
 
 Definition rec_eqb (a b : rec) : bool :=
   (r_off a =? r_off b) && (r_ts a =? r_ts b) && N.eqb (r_ep a) (r_ep b) && bytes_eqb (r_body a) (r_body b).
@@ -26,10 +28,13 @@ Fixpoint list_eqb {A} (eq : A -> A -> bool) (a b : list A) : bool :=
 Definition end_code (e : rd_end) : N :=
   match e with EndWait => 0 | EndReadonly => 1 | EndNotFound => 2 | EndOther => 3 end%N.
 
-Record lcase := { lc_maxb : Z; lc_cc : bool; lc_ops : list lop }.
+Record lcase := { lc_maxb : Z; lc_cc : bool; lc_lim : limits; lc_ops : list lop }.
+
+Definition layout_eqb (a b : Z * Z * Z) : bool :=
+  let '(x1, y1, z1) := a in let '(x2, y2, z2) := b in (x1 =? x2) && (y1 =? y2) && (z1 =? z2).
 
 (* returns (new state, agrees?) *)
-Definition step (maxb : Z) (cc : bool) (l : log) (o : lop) : log * bool :=
+Definition step (maxb : Z) (cc : bool) (lim : limits) (l : log) (o : lop) : log * bool :=
   match o with
   | LAppend ms res offs =>
     match append maxb cc l ms with
@@ -51,16 +56,18 @@ Definition step (maxb : Z) (cc : bool) (l : log) (o : lop) : log * bool :=
     let '(rs, en) := if unc then read_uncommitted l s else read_committed l s in
     (l, list_eqb rec_eqb rs recs && N.eqb (end_code en) e)
   | LState nw od hw => (l, (newest l =? nw) && (oldest l =? od) && (l_hw l =? hw))
+  | LClean ttl => (clean lim ttl l, true)
+  | LLayout lay => (l, list_eqb layout_eqb (map (fun s => (s_base s, s_count s, s_pos s)) (l_segs l)) lay)
   end.
 
-Fixpoint run_ops (maxb : Z) (cc : bool) (l : log) (ops : list lop) (i : nat) : option nat :=
+Fixpoint run_ops (maxb : Z) (cc : bool) (lim : limits) (l : log) (ops : list lop) (i : nat) : option nat :=
   match ops with
   | [] => None
-  | o :: r => let '(l', ok) := step maxb cc l o in
-              if ok then run_ops maxb cc l' r (S i) else Some i
+  | o :: r => let '(l', ok) := step maxb cc lim l o in
+              if ok then run_ops maxb cc lim l' r (S i) else Some i
   end.
 
-Definition lcase_result (c : lcase) : option nat := run_ops (lc_maxb c) (lc_cc c) new_log (lc_ops c) 0.
+Definition lcase_result (c : lcase) : option nat := run_ops (lc_maxb c) (lc_cc c) (lc_lim c) new_log (lc_ops c) 0.
 
 (* list of (case index, op index) of the first disagreement in each disagreeing case *)
 Fixpoint lcases_mismatches (cs : list lcase) (i : nat) : list (nat * nat) :=
